@@ -359,6 +359,28 @@ def F30():
         return (f"three droplets at the same position: surface distance of the third to its nearest neighbour reported as {nd[2]}, "
                 "expected 0 - (0.5 + 0) = -0.5 (the radii of two OTHER droplets were subtracted)")
 
+def F31():
+    """the same two analyses, run one after the other with one options dict, give a different second result depending
+    on whether the FIRST one ran serially or with workers (serial refine_droplet wrote ftol/xtol/gtol into the caller's dict)"""
+    import numpy as np
+    from pde import UnitGrid
+    from droplets import DiffuseDroplet, Emulsion, SphericalDroplet
+    from droplets.image_analysis import refine_droplets
+    grid = UnitGrid([24, 24])
+    em = Emulsion([DiffuseDroplet([7.3, 8.1], 4.2, 1.3), DiffuseDroplet([17.2, 16.4], 3.1, 1.3)])
+    field = em.get_phasefield(grid)
+    cands = [SphericalDroplet([7, 8], 4), SphericalDroplet([17, 16], 3)]
+
+    def history(first_procs):
+        p = {"max_nfev": 50}
+        refine_droplets(field, [c.copy() for c in cands], num_processes=first_procs, tolerance=1e-2, least_squares_params=p)
+        second = refine_droplets(field, [c.copy() for c in cands], num_processes=1, tolerance=1e-12, least_squares_params=p)
+        return [d.data.tobytes() for d in second], dict(p)
+    (a, pa), (b, pb) = history(1), history(2)
+    if a != b or pa != pb:
+        return (f"history [refine(tol=1e-2, p); refine(tol=1e-12, p)] with one dict p: the second result differs bit-wise depending on "
+                f"whether the first analysis ran with 1 or 2 processes (p afterwards: serial {pa}, parallel {pb})")
+
 
 ALL = {k: v for k, v in globals().items() if k[0] == "F" and callable(v)}
 
